@@ -31,6 +31,30 @@ instance (cfg : Cfg) (s : State) (c : TT) : Decidable (TooSlow cfg s c) := by
     · exact isTrue ⟨f, rfl, h2⟩
     · exact isFalse (by rintro ⟨f', hf', h3⟩; cases hf'; exact h2 h3)
 
+/-- **the deadline of a step is the real time of its own time stamp**: the reply to the step for time `t` is on time iff it is
+processed at a clock value of at most `f·t`.  Since the step may begin from `f·(t−1)` on (`not_early`), a step that begins at its
+earliest moment has a budget of `f` ticks … -/
+theorem on_time_iff (cfg : Cfg) (s : State) (c : TT) (f : Nat) (hf : cfg.rt = some f) :
+    ¬ TooSlow cfg s c ↔ s.clock ≤ f * TT.time c := by
+  unfold TooSlow
+  constructor
+  · intro h
+    apply Classical.byContradiction
+    intro hn
+    exact h ⟨f, hf, by omega⟩
+  · rintro h ⟨f', hf', h2⟩
+    rw [hf] at hf'
+    cases hf'
+    omega
+
+/-- … and **a step for time 0 has no budget at all**: any reply that is processed after a positive amount of real time is reported
+as too slow (a warning; with `rt_strict` the run ends with RuntimeError at its very first step).  On the virtual clock of the
+correspondence an instant reply takes no time, so this does not show there; on a wall clock every reply takes some time — part of
+the pacing rule recorded as finding C17-instant-too-slow. -/
+theorem first_step_has_no_budget (cfg : Cfg) (s : State) (c : TT) (f : Nat) (hf : cfg.rt = some f) (h0 : TT.time c = 0)
+    (hclock : 0 < s.clock) : TooSlow cfg s c :=
+  ⟨f, hf, by rw [h0]; omega⟩
+
 /-- when the run is on time `rt_check` does nothing, strict or not -/
 theorem strict_irrelevant_on_time (cfg : Cfg) (s : State) (p : Sid) (c : TT) (h : ¬ TooSlow cfg s c) :
     rtCheck cfg s p c = s := by
